@@ -213,10 +213,17 @@ def rule_bitwise(facts, rep):
     rep.fn(b["path"])
     ok, why = False, ""
     try:
-        l, r_, positive = predicate(b["path"], [eff_val("a")])
-        t = agree_table(l, r_, ["a"])
-        ok = positive and all(t[(a_,)] == (~a_ & mask) for a_ in (0, mask))
-        why = f"compares {str(l)[:60]} with {str(r_)[:40]}"
+        try:
+            l, r_, positive = predicate(b["path"], [eff_val("a")])
+            t = agree_table(l, r_, ["a"])
+            ok = positive and all(t[(a_,)] == (~a_ & mask) for a_ in (0, mask))
+            why = f"compares {str(l)[:60]} with {str(r_)[:40]}"
+        except Unrecognised:
+            # not one comparison of bit-vector terms (a constant pattern, say): the predicate on every one of the 65536 values the
+            # representation has, concretely
+            ev = abseval.Evaluator(facts, "anstyle", {})
+            wrong = [v for v in range(1 << 16) if ev.call_fn("anstyle", b["path"], [("ctor", EFFT, ("int", v))]) != ("bool", v == 0)]
+            ok, why = not wrong, f"by enumeration of all 16-bit values; wrong on {wrong[:3]}"
     except Unrecognised as ex:
         why = f"not evaluable: {ex}"
     rep.check(ok, "bitwise", b["path"], "per-bit:a==0", f"is_plain iff no bit set; {why}", loc(b))
@@ -506,15 +513,21 @@ def rule_wiring(facts, rep):
         why = f"not evaluable: {ex}"
     rep.check(ok, "wiring", n["path"], "all-None-and-empty", f"Style::new() by value {why}", loc(n))
     p = facts.body("anstyle", S + "is_plain")
-    parts = hir.split_and(ac.single_expr(p["hir"]))
-    got = set()
-    for c in parts:
-        c = hir.simp(c)
-        if hir.is_call(c, "Option::<T>::is_none"):
-            got.add(hir.place_str(c["args"][0]))
-        elif hir.is_call(c, E + "is_plain"):
-            got.add(hir.place_str(c["args"][0]))
-    rep.check(got == {"self.fg", "self.bg", "self.underline", "self.effects"} and len(parts) == 4, "wiring", p["path"], "4-way-conjunction", f"{sorted(got)}", loc(p))
+    # by value: each colour present or not, the effects empty / one bit (each of the 16) / all bits — plain exactly when all three
+    # colours are absent and no effect bit is set (a conjunction, early returns, a tuple pattern: all the same function)
+    import itertools
+    bad = []
+    try:
+        for fg, bg, ul, eff in itertools.product((False, True), (False, True), (False, True), [0, 0xffff] + [1 << i_ for i_ in range(16)]):
+            st = ("rec", {"fg": ("some", ("sym", "c")) if fg else ("none",), "bg": ("some", ("sym", "c")) if bg else ("none",),
+                          "underline": ("some", ("sym", "c")) if ul else ("none",), "effects": ("ctor", EFFT, ("int", eff))})
+            r, _ = run_fn(facts, p["path"], [st])
+            if r != ("bool", not (fg or bg or ul or eff)):
+                bad.append(f"fg {fg}, bg {bg}, underline {ul}, effects {eff:#x}: {r}")
+            rep.count()
+    except Unrecognised as ex:
+        bad.append(f"not evaluable: {ex}")
+    rep.check(not bad, "wiring", p["path"], "4-way-conjunction", f"{bad[:3]}", loc(p))
     for x in (n, p):
         rep.fn(x["path"])
     # derived PartialEq on Style compares all four fields (derive ⇒ field-wise)
@@ -523,7 +536,21 @@ def rule_wiring(facts, rep):
     # Default for Style is derived: all None, Effects::default() = Effects(0)
     impls = [i for i in facts.items("anstyle") if i["dk"] == "Impl" and i.get("trait") == "core::default::Default"
              and i.get("self_ty") in ("anstyle::style::Style", "anstyle::effect::Effects")]
-    rep.check(len(impls) == 2 and all(i.get("derived") for i in impls), "wiring", "anstyle::style::Style", "Default-is-derived", "", "")
+    ok = len(impls) == 2
+    why = ""
+    if ok and not all(i.get("derived") for i in impls):
+        # written by hand: its value, by evaluation, is what the derive gives (all None, no effect bit)
+        try:
+            rs, _ = run_fn(facts, "<anstyle::style::Style as core::default::Default>::default", [])
+            re_, _ = run_fn(facts, "<anstyle::effect::Effects as core::default::Default>::default", []) \
+                if not [i for i in impls if i.get("derived") and i.get("self_ty") == EFFT] else (("ctor", EFFT, ("int", 0)), None)
+            if [i for i in impls if i.get("derived") and i.get("self_ty") == "anstyle::style::Style"]:
+                rs = ("rec", {"fg": ("none",), "bg": ("none",), "underline": ("none",), "effects": re_})
+            ok = re_ == ("ctor", EFFT, ("int", 0)) and rs == ("rec", {"fg": ("none",), "bg": ("none",), "underline": ("none",), "effects": ("ctor", EFFT, ("int", 0))})
+            why = f"Style::default() = {str(rs)[:120]}, Effects::default() = {re_}"
+        except Unrecognised as ex:
+            ok, why = False, f"not evaluable: {ex}"
+    rep.check(ok, "wiring", "anstyle::style::Style", "Default-is-derived", f"derived, or by value the plain style / empty set; {why}", "")
 
 
 def rule_colour_tables(facts, rep):
